@@ -60,7 +60,7 @@ def flat(a):
 FUNC = {
     "mesh_code": 1, "mesh_spec": 2, "face_centroid": 3, "poly_code": 4, "fans": 5,
     "polygon": 10, "polygon_planar": 11, "poly_faces": 12,
-    "inside_convex": 20, "winding2": 21, "winding3": 22, "dist2_mesh": 23,
+    "inside_convex": 20, "winding2": 21, "winding3": 22, "dist2_mesh": 23, "inside_ellipsoid": 24, "ellipse": 25,
     "curved": 30, "balls": 40, "family": 50,
 }
 
